@@ -39,6 +39,22 @@ type hist struct {
 
 	requests int
 	dups     int
+
+	// okReplies remembers every successful reply to a sequenced request
+	// of this case and who it belonged to (owner / slot), so that a reply
+	// served to somebody else, or an older one, is recognised.
+	okReplies map[string]string
+}
+
+// remember records a successful reply of a sequence holder.
+func (h *hist) remember(holder string, st nfsv4.Nfsstat4, enc []byte) {
+	if st != nfsv4.NFS4_OK {
+		return
+	}
+	if h.okReplies == nil {
+		h.okReplies = map[string]string{}
+	}
+	h.okReplies[string(enc)] = holder
 }
 
 func (h *hist) logf(format string, args ...any) {
